@@ -58,7 +58,7 @@ example : exP.Ok ∧ WellNested exOps ∧ writeAll exP exOps =
 /-! ## `lyb_skip_siblings` -/
 
 /-- `lyb_skip_lands_at_end` — "skipping `inner_chunks × LYB_META_BYTES` and then `written` bytes, chunk after chunk,
-passes exactly one sibling frame" — is **false** (finding F50).  (a) Top level: a frame whose data ends exactly on a
+passes exactly one sibling frame" — is **false** (finding F69).  (a) Top level: a frame whose data ends exactly on a
 chunk end and that then only opens an empty child frame has a last chunk `(size 0, inner 1)`; the `do … while
 (written)` loop stops before the child's meta record.  Witness with `sizeMax = 3`: `( 3 bytes ( ) )`, skipped
 frame 0; nothing else in the image, and one meta record is left unread. -/
@@ -136,7 +136,7 @@ example : GoodFrame exP [(3, 0, [1, 2, 3]), (1, 1, [0, 0, 4])] := by
 /-- … and the writer side, closing the gap for a frame that is the whole stream (`start :: body ++ [stop]`, any
 well-nested body: payloads of any size, any nesting): the image the printer produces is a list of counted chunks, and
 `lyb_read_start_siblings; lyb_skip_siblings; lyb_read_stop_siblings` consumes it to the last byte — **or** the image
-has exactly the shape of F50 (a): more than one chunk and a last record `(size 0, inner > 0)`.  So (a) is the only way
+has exactly the shape of F69 (a): more than one chunk and a last record `(size 0, inner > 0)`.  So (a) is the only way
 `lyb_skip_siblings` can miss the end of a top-level frame. -/
 theorem lyb_skip_top_frame (P : Params) (hP : P.Ok) (body : List Op) (hb : wellNestedFrom 0 body = true) (img : Bytes)
     (hw : writeAll P (.start :: body ++ [.stop]) = some img) :
@@ -168,7 +168,7 @@ theorem lyb_skip_top_frame (P : Params) (hP : P.Ok) (body : List Op) (hb : wellN
       have := lyb_skip_lands_at_end_partial P hP cs e2 []
       simpa [e1] using this
 
-/-- non-vacuity: both alternatives occur — a two-chunk frame that is skipped correctly, and the F50 (a) shape -/
+/-- non-vacuity: both alternatives occur — a two-chunk frame that is skipped correctly, and the F69 (a) shape -/
 example :
     writeAll exP (.start :: [.write [1, 2, 3, 4], .start, .stop] ++ [.stop]) = some [3, 0, 1, 2, 3, 1, 1, 4, 0, 0]
     ∧ rstop (rskip exP 3 (rstart exP { inp := [3, 0, 1, 2, 3, 1, 1, 4, 0, 0], frames := [] })) = some { inp := [], frames := [] }
